@@ -166,6 +166,13 @@ def run_concern(pid: str, tier: str, seed: int, runs=None) -> dict:
                 # make the schema part of the exit description so that known findings are keyed by program
                 f.exits = [{'file': 'schema:' + rel, 'line': 0, 'text': rel, 'what': 'program'}] + f.exits
                 res['failures'].append(f)
+        # (round 11) a failed obligation of an emitted function that contains a closure / std call Verus knows nothing about is UNDECIDED;
+        # it used to be dropped here, so the program counted as verified although Verus had rejected it (seed C07-12: `derived.or_else(|| ..)`).
+        # There is no execution-based witness for emitted code, so such a program makes the check inconclusive (exit 2) - never OK, never an alarm.
+        und_ = [f for f in (getattr(ur, 'undecided_failures', None) or []) if f.obligation.startswith('emitted::')]
+        if und_:
+            inconcl.append(f"{rel}: proof undecided for {', '.join(sorted({f.obligation for f in und_})[:4])} (the emitted function uses a closure or std call "
+                           f"without contract: {'; '.join((ur.out.unconstrained.get(und_[0].obligation.rsplit('#', 1)[0]) or ['?'])[:2]) if ur.out is not None else '?'})")
         res['trusted_base'] = sorted(set(res['trusted_base']) | set(ur.trusted))
         if len(samples) < 6 and ur.obligations:
             samples.append({'program': rel, 'emitted_sha256': hashlib.sha256(open(u.emitted_path, 'rb').read()).hexdigest(),
